@@ -12,6 +12,7 @@ var Registry = map[string]func(*Ctx) int{
 	"C03": C03,
 	"C04": C04,
 	"C05": C05,
+	"C06": C06,
 	"C09": C09,
 	"C10": C10,
 	"C16": C16,
